@@ -29,6 +29,10 @@ def single_regular_file_resolver(path: Path) -> Path:
     except FileNotFoundError:
         raise FileNotAccessibleSimpleError(path,
                                            ERR_MSG__NOT_EXISTS)
+    except OSError as ex:
+        # E.g. a component of the path is not a directory, or a loop of symbolic links
+        raise FileNotAccessibleSimpleError(path,
+                                           str(ex))
     if stat.S_ISREG(stat_mode):
         return path
     else:
